@@ -457,3 +457,304 @@ def c19() -> List[V]:
 
 
 REGISTRY.update({"C02": c02, "C07": c07, "C11": c11, "C16": c16, "C18": c18, "C19": c19})
+
+
+# ---------------------------------------------------------------------------------------------------------------------
+# second batch: the rules that were added after the first round of seeded changes (each broken variant is the
+# structural clause of its rule broken by one edit; each twin re-phrases the same code)
+CS = "conclusion_selector"
+CD = "cache_data"
+
+_APPLY_OLD = "        return self.operation(operand_values[self.left._id_].value, operand_values[self.right._id_].value)"
+_ROW_OLD = ("                    values = copy(first_value)\n                    values.update(second_value)\n"
+            "                    values.update(operand_value_map)\n")
+_AND_FLAG_OLD = ("                        self._is_false_ = self.right._is_false_\n"
+                 "                        self.update_cache(right_value, self.right_cache)")
+
+
+def _apply_always(rule="APPLY-ALWAYS"):
+    return [
+        V("apply-shortcut-on-none", S, "Comparator.apply_operation", _APPLY_OLD,
+          "        if operand_values[self.left._id_].value is None:\n            return False\n" + _APPLY_OLD, rule=rule),
+        V("apply-shortcut-on-falsy-right", S, "Comparator.apply_operation", _APPLY_OLD,
+          "        if not operand_values[self.right._id_].value:\n            return self.operation is operator.ne\n" + _APPLY_OLD, rule=rule),
+        V("twin-apply-through-locals", S, "Comparator.apply_operation", _APPLY_OLD,
+          "        left_value = operand_values[self.left._id_].value\n        right_value = operand_values[self.right._id_].value\n"
+          "        return self.operation(left_value, right_value)", kind="twin"),
+    ]
+
+
+def _literal_wrap(rule="LITERAL-WRAP"):
+    return [
+        V("literal-empty-container-unwrapped", S, "Literal.__init__", "        data = [data]\n",
+          "        data = [data] if data or not is_iterable(data) else data\n", rule=rule),
+        V("twin-literal-wraps-original", S, "Literal.__init__", "        data = [data]\n", "        data = [original_data]\n", kind="twin"),
+    ]
+
+
+def _operand_in_row(rule="OPERAND-IN-ROW"):
+    return [
+        V("operands-not-reasserted", S, "Comparator._evaluate__", "                    values.update(operand_value_map)\n", "", rule=rule),
+        V("operands-asserted-first", S, "Comparator._evaluate__", _ROW_OLD,
+          "                    values = copy(operand_value_map)\n                    values.update(first_value)\n"
+          "                    values.update(second_value)\n", rule=rule),
+        V("twin-row-as-dict-display", S, "Comparator._evaluate__", _ROW_OLD,
+          "                    values = {**first_value, **second_value, **operand_value_map}\n", kind="twin"),
+    ]
+
+
+def _logic_truth(rule="LOGIC-TRUTH"):
+    return [
+        V("and-flag-from-left", S, "AND._evaluate__", "self._is_false_ = self.right._is_false_", "self._is_false_ = self.left._is_false_", rule=rule),
+        V("and-false-left-flag-missing", S, "AND._evaluate__", "                    self._is_false_ = True\n                    if self._is_duplicate_output_(left_value):",
+          "                    if self._is_duplicate_output_(left_value):", rule=rule),
+        V("elseif-true-left-flag-stale", S, "ElseIf._evaluate__", "                    self._is_false_ = False\n                    yield left_value",
+          "                    yield left_value", rule=rule),
+        V("elseif-left-not-asked-for-false-rows", S, "ElseIf._evaluate__", "left_values = self.left._evaluate__(sources, yield_when_false=True)",
+          "left_values = self.left._evaluate__(sources, yield_when_false=self._yield_when_false_)", rule=rule),
+        V("elseif-false-rows-always", S, "ElseIf._evaluate__", "                            if self._is_false_ and not self._yield_when_false_:\n                                continue\n                            if not self._is_false_:",
+          "                            if not self._is_false_:", rule=rule),
+        V("twin-and-flag-local", S, "AND._evaluate__", "                        self._is_false_ = self.right._is_false_\n",
+          "                        right_is_false = self.right._is_false_\n                        self._is_false_ = right_is_false\n", kind="twin"),
+    ]
+
+
+def _cache_flag(rule="CACHE-FLAG-CONSISTENT"):
+    return [
+        V("and-stores-previous-flag", S, "AND._evaluate__", _AND_FLAG_OLD,
+          "                        self.update_cache(right_value, self.right_cache)\n                        self._is_false_ = self.right._is_false_", rule=rule),
+        V("replay-keeps-stale-flag", S, "BinaryOperator.yield_final_output_from_cache", "            self._is_false_ = is_false\n", "", rule=rule),
+        V("store-constant-flag", S, "BinaryOperator.update_cache", "output=self._is_false_)", "output=False)", rule=rule),
+    ]
+
+
+def _dedup():
+    return [
+        V("dedup-key-wrong-side", S, "BinaryOperator._required_variables_from_child_", "        if child is self.left:\n            required_vars.update(self.right._unique_variables_)",
+          "        if child is self.right:\n            required_vars.update(self.left._unique_variables_)", rule="DEDUP-KEY"),
+        V("dedup-key-dropped", S, "BinaryOperator._required_variables_from_child_", "        if child is self.left:\n            required_vars.update(self.right._unique_variables_)\n",
+          "", rule="DEDUP-KEY"),
+        V("dedup-parent-dropped", S, "BinaryOperator._required_variables_from_child_",
+          "        if self._parent_:\n            required_vars.update(self._parent_._required_variables_from_child_(self, when_true))\n        return required_vars",
+          "        return required_vars", rule="DEDUP-PARENT"),
+        V("dedup-parent-dropped-on-or-right", S, "OR._required_variables_from_child_",
+          "                    required_vars.update(conc._unique_variables_)\n            if self._parent_:\n                required_vars.update(self._parent_._required_variables_from_child_(self, when_true))\n        return required_vars",
+          "                    required_vars.update(conc._unique_variables_)\n        return required_vars", rule="DEDUP-PARENT"),
+        V("twin-dedup-parent-first", S, "BinaryOperator._required_variables_from_child_",
+          "        if when_true or (when_true is None):\n            for conc in self._conclusion_:\n                required_vars.update(conc._unique_variables_)\n"
+          "        if self._parent_:\n            required_vars.update(self._parent_._required_variables_from_child_(self, when_true))\n",
+          "        if self._parent_:\n            required_vars.update(self._parent_._required_variables_from_child_(self, when_true))\n"
+          "        if when_true or (when_true is None):\n            for conc in self._conclusion_:\n                required_vars.update(conc._unique_variables_)\n", kind="twin"),
+    ]
+
+
+def _no_clobber(rule="BIND-NO-CLOBBER"):
+    return [
+        V("and-merges-into-left-binding", S, "AND._evaluate__", "                        output = copy(right_value)\n                        output.update(left_value)",
+          "                        left_value.update(right_value)\n                        output = left_value", rule=rule),
+        V("exceptif-merges-into-left-binding", CS, "ExceptIf._evaluate__", "                output = left_value.copy()\n                output.update(right_value)",
+          "                left_value.update(right_value)\n                output = left_value", rule=rule),
+        V("twin-exceptif-dict-display", CS, "ExceptIf._evaluate__", "                output = left_value.copy()\n                output.update(right_value)",
+          "                output = {**left_value, **right_value}", kind="twin"),
+    ]
+
+
+def _row_fresh(rule="ROW-FRESH"):
+    return [
+        V("mapping-copy-hoisted", S, "DomainMapping._evaluate__", "            for v in self._apply_mapping_(child_v[self._child_._id_]):\n                values = copy(child_v)\n",
+          "            values = copy(child_v)\n            for v in self._apply_mapping_(child_v[self._child_._id_]):\n", rule=rule),
+        V("mapping-extends-child-row", S, "DomainMapping._evaluate__", "                values = copy(child_v)\n", "                values = child_v\n", rule=rule),
+    ]
+
+
+def _correlated(rule="PRODUCT-CORRELATED"):
+    return [
+        V("arguments-as-independent-streams", S, "Variable._generate_combinations_for_child_vars_values_",
+          "        yield from self._bind_child_vars_(list(self._child_vars_.items()), sources or {})",
+          "        yield from generate_combinations({k: v._evaluate_as_value_(copy(sources or {})) for k, v in self._child_vars_.items()})", rule=rule),
+    ]
+
+
+def _abandon(rule="INTERNAL-ABANDON"):
+    return [
+        V("forall-empty-intersection-leaves-caches", S, "ForAll._evaluate__", "            if not self.solution_set:\n                self.variable._clear_result_caches_()\n                break",
+          "            if not self.solution_set:\n                break", rule=rule),
+        V("forall-failed-value-leaves-caches", S, "ForAll._evaluate__", "                self.solution_set = []\n                # the remaining values of the universal variable are not needed, but its evaluation has already\n"
+          "                # recorded in its result caches that it covers them.\n                self.variable._clear_result_caches_()\n                break",
+          "                self.solution_set = []\n                break", rule=rule),
+    ]
+
+
+def _cache_index():
+    return [
+        V("empty-assignment-to-flat-store", CD, "IndexedCache.insert", "        if not index:\n", "        if not index or not assignment:\n", rule="INSERT-RETRIEVABLE"),
+        V("check-marks-covered", CD, "IndexedCache.check", "        # if not seen:\n        #     self.seen_set.add(assignment)\n",
+          "        if not seen:\n            self.seen_set.add(assignment)\n", rule="CHECK-IS-PURE"),
+        V("empty-check-marks-all-seen", CD, "SeenSet.check", "            return False\n        for constraint in self.seen:",
+          "            self.all_seen = True\n            return False\n        for constraint in self.seen:", rule="CHECK-IS-PURE"),
+    ]
+
+
+def _selector_cache(rule="SELECTOR-NO-CACHE"):
+    return [
+        V("selectors-follow-the-switch", CS, "ConclusionSelector._caching_enabled_", "        return False", "        return is_caching_enabled()", rule=rule),
+    ]
+
+
+def more_c01():
+    return _apply_always() + _literal_wrap() + _operand_in_row() + _logic_truth() + _cache_flag()
+
+
+def more_c02():
+    return _dedup() + _no_clobber()[:1] + _row_fresh() + _correlated() + _cache_flag()[:1]
+
+
+def more_c03():
+    return _logic_truth()[:4]
+
+
+def more_c04():
+    return _abandon() + [
+        V("concatenate-aliases-user-list", S, "Concatenate._evaluate__", "                    all_values[self._id_].extend(child_v_unwrapped)",
+          "                    if self._id_ not in all_values:\n                        all_values[self._id_] = child_v_unwrapped\n"
+          "                    else:\n                        all_values[self._id_].extend(child_v_unwrapped)", rule="NO-USER-VALUE-MUTATION"),
+        V("flatten-sorts-user-collection", S, "Flatten._apply_mapping_", "            inner_iter = inner\n", "            inner_iter = inner\n            if isinstance(inner, list):\n                inner.sort(key=id)\n",
+          rule="NO-USER-VALUE-MUTATION"),
+        V("domain-listing-twice-yields-twice-first-pass", "hashed_data", "HashedIterable.__iter__",
+          "            if v.id_ in self.values:\n                # listed more than once: it was already yielded, and later iterations will yield it once as well.\n                continue\n", "", rule="DUP-STABLE"),
+    ]
+
+
+def more_c05():
+    return _abandon()[:1] + _cache_flag() + _cache_index() + _selector_cache()
+
+
+def more_c06():
+    return [
+        V("the-dereferences-missing-var", S, "The._evaluate_", "        elif self._var_:\n", "        else:\n", rule="VAR-NULL-GUARD"),
+        V("requested-kind-ignored-for-terms", "entity", "select_one_or_select_many_or_infer", "        q = entity_ if type(entity_) is quantifier else quantifier(entity_._child_)",
+          "        q = entity_", rule="QUANTIFIER-KIND"),
+        V("twin-requantify-as-statement", "entity", "select_one_or_select_many_or_infer", "        q = entity_ if type(entity_) is quantifier else quantifier(entity_._child_)",
+          "        if type(entity_) is quantifier:\n            q = entity_\n        else:\n            q = quantifier(entity_._child_)", kind="twin"),
+    ]
+
+
+def more_c08():
+    return [
+        V("nested-mode-keeps-rule-mode", S, "symbolic_mode", "        _set_symbolic_mode(mode)\n", "        _set_symbolic_mode(prev_mode if prev_mode == EQLMode.Rule else mode)\n", rule="MODE-SET-REQUESTED"),
+        V("mode-none-means-unchanged", S, "symbolic_mode", "        _set_symbolic_mode(mode)\n", "        if mode is not None:\n            _set_symbolic_mode(mode)\n", rule="MODE-SET-REQUESTED"),
+    ]
+
+
+def more_c09():
+    return more_c08() + [
+        V("constant-predicates-run-at-construction", S, "Variable._validate_inputs_and_fill_missing_ones_", "        self._child_ = None\n",
+          "        self._child_ = None\n        if self._predicate_type_ and self._kwargs_ and not any(isinstance(v, SymbolicExpression) for v in self._kwargs_.values()):\n"
+          "            self._domain_source_ = From([self._type_(**self._kwargs_)])\n", rule="USERCODE-REACH"),
+    ]
+
+
+def more_c10():
+    return _abandon() + [
+        V("universal-variable-not-in-key", S, "ForAll._required_variables_from_child_", "            required_vars.update(self.left._unique_variables_)\n", "            pass\n", rule="FORALL-KEY"),
+        V("universal-key-on-wrong-child", S, "ForAll._required_variables_from_child_", "        if child is self.right:\n", "        if child is self.left:\n", rule="FORALL-KEY"),
+        V("literals-in-intersection-key", S, "ForAll.condition_unique_variable_ids", "\n                if not isinstance(v.value, Literal)]", "]", rule="FORALL-NONLITERAL"),
+        V("partial-rows-intersected", S, "ForAll._evaluate__", "for complete_val in self._bind_unbound_condition_variables_(condition_val):", "for complete_val in [condition_val]:",
+          rule="FORALL-TOTAL-ROWS"),
+        V("twin-forall-key-as-loop", S, "ForAll.condition_unique_variable_ids",
+          "        return [v.id_ for v in self.condition._unique_variables_.difference(self.left._unique_variables_)\n                if not isinstance(v.value, Literal)]",
+          "        ids = []\n        for v in self.condition._unique_variables_.difference(self.left._unique_variables_):\n            if isinstance(v.value, Literal):\n                continue\n"
+          "            ids.append(v.id_)\n        return ids", kind="twin"),
+    ]
+
+
+def more_c11():
+    return _correlated() + _dedup()[:3] + _cache_flag()[:1] + [
+        V("falsy-instance-is-false", S, "Variable._process_output_and_update_values_", "result_truthy = bool(function_output) if self._predicate_type_ else True",
+          "result_truthy = bool(function_output)", rule="INFER-NOT-TRUTH"),
+        V("twin-truth-rephrased", S, "Variable._process_output_and_update_values_", "result_truthy = bool(function_output) if self._predicate_type_ else True",
+          "result_truthy = True if not self._predicate_type_ else bool(function_output)", kind="twin"),
+    ]
+
+
+def more_c12():
+    return _selector_cache() + _no_clobber()[1:] + [
+        V("exceptif-false-rows-count-as-fired", CS, "ExceptIf._evaluate__", "self.right._evaluate__(left_value, yield_when_false=False)",
+          "self.right._evaluate__(left_value, yield_when_false=self._yield_when_false_)", rule="EXCEPT-FIRED"),
+        V("exceptif-default-flag", CS, "ExceptIf._evaluate__", "self.right._evaluate__(left_value, yield_when_false=False)",
+          "self.right._evaluate__(left_value, yield_when_false=True)", rule="EXCEPT-FIRED"),
+        V("twin-exceptif-default-argument", CS, "ExceptIf._evaluate__", "self.right._evaluate__(left_value, yield_when_false=False)",
+          "self.right._evaluate__(left_value)", kind="twin"),
+    ]
+
+
+def more_c13():
+    return [
+        V("names-from-annotations", "predicate", "update_cls_args", "list(inspect.signature(symbolic_cls.__init__).parameters.keys())",
+          "['self'] + list(getattr(symbolic_cls, '__annotations__', {}).keys())", rule="CLS-ARGS-SIGNATURE"),
+        V("twin-names-from-signature-object", "predicate", "update_cls_args", "list(inspect.signature(symbolic_cls.__init__).parameters.keys())",
+          "list(inspect.signature(symbolic_cls.__init__).parameters)", kind="twin"),
+    ]
+
+
+def more_c14():
+    return [
+        V("reader-mode-defaulted", "predicate", "symbol.<locals>.symbolic_new", "_predicate_type_=predicate_type,\n                            _is_indexed_=index_class_cache(symbolic_cls))",
+          "_predicate_type_=predicate_type)", rule="REG-READ-MODE"),
+        V("store-replayed-live", "hashed_data", "HashedIterable.__iter__", "        yield from list(self.values.values())", "        yield from self.values.values()", rule="ITER-SNAPSHOT"),
+        V("inference-allocates-without-registering", S, "Variable._instantiate_new_values_and_yield_results_",
+          "            instance = self._type_(**{k: hv.value for k, hv in bound_kwargs.items()})",
+          "            instance = object.__new__(self._type_)\n            instance.__init__(**{k: hv.value for k, hv in bound_kwargs.items()})", rule="REG-INFER"),
+        V("twin-subclass-keys-as-loop", CD, "get_cache_keys_for_class_", "        cache_keys = [t for t in cache.keys() if isinstance(t, type) and issubclass(t, clazz)]",
+          "        for t in cache.keys():\n            if isinstance(t, type) and issubclass(t, clazz):\n                cache_keys.append(t)", kind="twin"),
+    ]
+
+
+def more_c16():
+    return _row_fresh() + _correlated() + [
+        V("flatten-not-a-key", S, "Flatten._all_variable_instances_", "        return self._child_._all_variable_instances_ + [self]", "        return self._child_._all_variable_instances_",
+          rule="FLATTEN-KEYED"),
+        V("twin-flatten-key-list-display", S, "Flatten._all_variable_instances_", "        return self._child_._all_variable_instances_ + [self]",
+          "        return [*self._child_._all_variable_instances_, self]", kind="twin"),
+    ]
+
+
+def more_c17():
+    return _operand_in_row()
+
+
+def more_c18():
+    return _cache_flag()
+
+
+def more_c19():
+    return _apply_always() + _literal_wrap() + [
+        V("false-row-request-read-from-attribute", S, "DomainMapping._evaluate__", "                if yield_when_false or not self._is_false_:",
+          "                if self._yield_when_false_ or not self._is_false_:", rule="REENTRANT-FLAG"),
+        V("twin-value-entry-positional", S, "SymbolicExpression._evaluate_as_value_", "return self._evaluate__(sources, yield_when_false=self._falsy_value_is_false_)",
+          "return self._evaluate__(sources, self._falsy_value_is_false_)", kind="twin"),
+    ]
+
+
+def more_c20():
+    return _cache_index() + [
+        V("stored-branch-tested-by-truthiness", CD, "IndexedCache.retrieve", "            if next_cache is None:\n", "            if not next_cache:\n", rule="NONE-TEST"),
+        V("wildcard-tested-by-truthiness", CD, "IndexedCache.retrieve", "            wildcard = cache.get(All)\n            if wildcard is not None:\n                yield from self._yield_result(assignment, wildcard, key_idx, result)\n            else:\n                # Explore",
+          "            wildcard = cache.get(All)\n            if wildcard:\n                yield from self._yield_result(assignment, wildcard, key_idx, result)\n            else:\n                # Explore", rule="NONE-TEST"),
+        V("leaf-kept-on-reinsert", CD, "IndexedCache.insert", "                cache[v] = output", "                cache.setdefault(v, output)", rule="LEAF-OVERWRITE"),
+        V("twin-intermediate-level-by-membership", CD, "IndexedCache.insert", "                next_cache = cache.get(v)\n                if next_cache is None:\n                    next_cache = CacheDict()\n                    cache[v] = next_cache\n                cache = next_cache",
+          "                if v not in cache:\n                    cache[v] = CacheDict()\n                cache = cache[v]", kind="twin"),
+    ]
+
+
+_MORE = {"C01": more_c01, "C02": more_c02, "C03": more_c03, "C04": more_c04, "C05": more_c05, "C06": more_c06, "C08": more_c08, "C09": more_c09,
+         "C10": more_c10, "C11": more_c11, "C12": more_c12, "C13": more_c13, "C14": more_c14, "C16": more_c16, "C17": more_c17, "C18": more_c18,
+         "C19": more_c19, "C20": more_c20}
+
+
+def _merged(first, more):
+    return lambda: first() + more()
+
+
+for _pid, _more in _MORE.items():
+    REGISTRY[_pid] = _merged(REGISTRY[_pid], _more) if _pid in REGISTRY else _more
